@@ -142,7 +142,7 @@ fn doc_json(spec: &DocSpec) -> String {
 /// upload is a version whose document is well over 1 MiB).
 fn large_ver(first_ver: u64, i: u32, bad: u8) -> u64 {
   if bad == 4 && i == 0 {
-    sim::work::BIG_VERSIONS + 97 * 1000
+    sim::work::BIG_VERSIONS + 2010
   } else {
     first_ver + i as u64
   }
